@@ -35,7 +35,8 @@ from edgegraph.output import nrpickler
 from .. import engine_h, canon as _canon
 from ..fixtures_mod import VA, NB_FILTERS, DIRS, UNKS
 from ..report import Report, HarnessError
-from ..structure import Alphabet, SWorld, apply_op, canon_world, observe, inv_links, inv_members
+from ..structure import (Alphabet, SWorld, apply_op, canon_world, observe, inv_links, inv_members,
+                         memo_attrs, memo_is_warm)
 
 PROP = "C10"
 
@@ -76,19 +77,16 @@ def roots_of(w):
     return r
 
 
-MEMO = "_Vertex__qa_nb_cache"
-
-
 def iso_form(root):
     # the private neighbour memo is derived data, not an attribute in the property's sense: a
     # pickler may or may not carry it over.  What the copy must do is *answer* like the original,
     # which the query battery checks (with caching as it is, so a carried-over memo is exercised).
-    return _canon.canon_graph([root], uid="keep", return_nodes=True, skip_attrs=(MEMO,))
+    return _canon.canon_graph([root], uid="keep", return_nodes=True, skip_attrs=memo_attrs())
 
 
 def uid_battery(nodes):
     """query answers keyed by uid over every vertex among the reachable objects"""
-    verts = sorted((n for n in nodes if hasattr(n, "_links") and hasattr(n, "_uid")), key=lambda v: v.uid)
+    verts = sorted((n for n in nodes if isinstance(n, Vertex)), key=lambda v: v.uid)
     out = {}
 
     def u(x):
@@ -314,7 +312,7 @@ def state_roundtrips(w):
                 for via_file in ((False, True) if proto == 4 and loader == "pickle" else (False,)):
                     bad = roundtrip_check(root, proto, loader, via_file, w.flag)
                     if bad:
-                        memo = "warm" if any(vars(v).get("_Vertex__qa_nb_cache") for v in w.v) else "cold"
+                        memo = "warm" if any(memo_is_warm(v) for v in w.v) else "cold"
                         fp = (f"same-process|root={rname}|caching={'on' if w.flag else 'off'}|memo={memo}|"
                               f"attrs={attr_kinds(w)}|{bad}")
                         out.append((fp, {"root": rname, "protocol": proto, "loader": loader, "via_file": via_file}))
